@@ -248,7 +248,8 @@ def is_mutable_value(v):
     if isinstance(v, ast.Call):
         # immutable constructors are fine
         n = call_name(v)
-        if n in ("tuple", "frozenset", "int", "float", "str", "bool", "object"):
+        if n in ("tuple", "frozenset", "int", "float", "str", "bool", "object", "namedtuple", "collections.namedtuple"):
+            # (namedtuple(...) creates an immutable record TYPE)
             return False
         return True
     return isinstance(v, MUTABLE_NODES)
